@@ -7,4 +7,5 @@ TARGETS = {
     'repro': dict(cfg='fib', src=['harness/repro.cpp'], cflags=f'-O1 -g1 {ASAN}', libs='-lrapidcheck'),
     'exec': dict(cfg='fib', src=['harness/exec.cpp'], cflags=f'-O1 -g1 {ASAN}', libs='-lrapidcheck'),
     'shared': dict(cfg='fib', src=['harness/shared.cpp'], cflags=f'-O1 -g1 {ASAN}', libs='-lrapidcheck'),
+    'when': dict(cfg='fib', src=['harness/when.cpp'], cflags=f'-O1 -g1 {ASAN}', libs='-lrapidcheck'),
 }
